@@ -2,6 +2,8 @@ import F1Verif.Drive.Verdict
 import F1Verif.Drive.Distribution
 import F1Verif.Drive.Progress
 import F1Verif.Drive.Handle
+import F1Verif.Drive.Staged
+import F1Verif.Drive.Jitter
 /-!
 Line-protocol driver (`f1model`). One case per line on stdin:
 
@@ -16,6 +18,9 @@ def dispatch (op : String) : Option (List String → List String → Option (Str
   match op with
   | "verdict" => some verdict
   | "dist" => some dist
+  | "jitter" => some jitter
+  | "staged" => some staged
+  | "ramp" => some ramp
   | "scn" => some scn
   | "scn2" => some scn2
   | "scn.measure" => some scnMeasure
